@@ -678,6 +678,21 @@ def strategy_dataset():
                 if hid is not None:  # specs of the NaN-only class stay exactly what they were
                     inst["hidden"] = hid
                 insts.append(inst)
+            if kind != "single" and len(insts) >= 2 and draw(st.integers(0, 4)) == 0:
+                # an empty instance listed BEFORE a labelled one in the same frame (instance positions in the frame then
+                # differ from positions among the non-empty instances)
+                insts[0]["pts"] = [None] * n_nodes
+                insts[0].pop("hidden", None)
+                if all(p is None for p in insts[1]["pts"]):
+                    insts[1]["pts"][0] = [12.5, 13.0]
+                    if insts[1].get("hidden"):
+                        insts[1]["hidden"][0] = None
+            if kind != "single" and n_frames > 1 and draw(st.integers(0, 4)) == 0:
+                # a frame whose instances are all empty (dropped by the datasets' frame filter): later frames then have
+                # a dataset position different from their position in the labels
+                for inst in insts:
+                    inst["pts"] = [None] * n_nodes
+                    inst.pop("hidden", None)
             if kind == "single":  # single-instance data has exactly one (non-empty) instance per frame
                 if all(p is None for p in insts[0]["pts"]):
                     insts[0]["pts"][0] = [10.5, 11.0]
@@ -735,7 +750,7 @@ def parts(tier):
         Part(name="functional", evaluate=eval_functional, strategy=strategy_functional,
              budget={"quick": 400, "thorough": 60000}, min_nontrivial={"quick": 80, "thorough": 12000}),
         Part(name="dataset", evaluate=eval_dataset, strategy=strategy_dataset, summarize=summarize_dataset,
-             budget={"quick": 300, "thorough": 24000}, min_nontrivial={"quick": 30, "thorough": 2400}),
+             budget={"quick": 520, "thorough": 24000}, min_nontrivial={"quick": 30, "thorough": 2400}),
     ]
 
 
